@@ -24,9 +24,15 @@ def universe(kind, nfr, rng):
     return u
 
 
-def run_one(chk, kind, nfr, prior, calls, uni):
-    """calls: list of ("add", name) | ("assign", [names]) | ("assign_bad", python value)"""
-    b = api.make_block(kind, nfr)
+def run_one(chk, kind, nfr, prior, calls, uni, how="ctor"):
+    """calls: list of ("add", name) | ("assign", [names]) | ("assign_bad", python value)
+    how: the block gets its frame count from the constructor, or is built with another one and re-timed (while it is
+    still empty) through its public attribute"""
+    if how == "ctor":
+        b = api.make_block(kind, nfr)
+    else:
+        b = api.make_block(kind, nfr + 3)
+        setattr(b, "nSamples" if kind == "EM" else "nFrames", nfr)
     names = dict(uni)
     counter = [0]
     registry = {}
@@ -38,7 +44,13 @@ def run_one(chk, kind, nfr, prior, calls, uni):
             registry[id(p)] = m
         return m, p
     pri = [fresh("good") for _ in range(prior)]
-    api.install(kind, b, [p for _, p in pri])
+    try:
+        api.install(kind, b, [p for _, p in pri])
+    except Exception as e:
+        chk.violation("C16 %s: a block of %d frames (frame count %s) refuses tracks of %d frames: %s" %
+                      (kind, nfr, "given to the constructor" if how == "ctor" else "assigned to the empty block", nfr, common.exc_info(e)),
+                      {"kind": kind, "nframes": nfr, "frame_count_set_by": how, "prior_tracks": prior}, True)
+        return None
     mtracks = [m for m, _ in pri]
     mcalls, obs = [], []
     keep = []
@@ -88,8 +100,8 @@ def run_one(chk, kind, nfr, prior, calls, uni):
     return mtracks, mcalls, obs
 
 
-def judge(chk, kind, nfr, prior, calls, mtracks, mcalls, obs, mres):
-    what = {"kind": kind, "nframes": nfr, "prior_tracks": prior, "calls": [list(c[:2]) if c[0] != "assign_bad" else [c[0], repr(c[1])] for c in calls]}
+def judge(chk, kind, nfr, prior, calls, mtracks, mcalls, obs, mres, how="ctor"):
+    what = {"kind": kind, "nframes": nfr, "frame_count_set_by": how, "prior_tracks": prior, "calls": [list(c[:2]) if c[0] != "assign_bad" else [c[0], repr(c[1])] for c in calls]}
     for j, (c, (rc, tracks, same, lens), m) in enumerate(zip(calls, obs, mres)):
         # oracle
         found = None
@@ -142,23 +154,32 @@ def run(chk):
                     for seq in itertools.product(single, repeat=l):
                         if l >= 2 and rng.random() < (0.85 if chk.tier == "quick" else 0.97):
                             continue
-                        jobs.append((kind, nfr, prior, list(seq), uni))
+                        jobs.append((kind, nfr, prior, list(seq), uni, "ctor"))
+                        if l == 1 or rng.random() < 0.3:
+                            jobs.append((kind, nfr, prior, list(seq), uni, "attr"))
     chk.rule = ("call sequences (length <= 2 quick / 3 thorough, sampled at the longest length) of add-track and whole-list "
-                "assignment on 3D-marker, force/torque and EMG blocks (frame counts 1-9, 0 or 2 prior tracks); the objects: a "
+                "assignment on 3D-marker, force/torque and EMG blocks (frame counts 1-9, given to the constructor or assigned to the still-empty block; 0 or 2 prior tracks); the objects: a "
                 "track of the right length, one frame short, one frame long, empty, an int, None, a str, a track of another "
                 "class, at every position of lists of length 0-3 (as list, tuple and generator), and non-iterable right-hand "
                 "sides; observed after each call: exception class, identity and frame counts of block.tracks; non-trivial = "
                 "contains an invalid object")
-    runs = []
-    for kind, nfr, prior, seq, uni in jobs:
-        mtracks, mcalls, obs = run_one(chk, kind, nfr, prior, seq, uni)
-        runs.append((mtracks, mcalls, obs))
-    mres = common.run_model_sharded([(41, [nfr, mt, mc]) for (kind, nfr, prior, seq, uni), (mt, mc, obs) in zip(jobs, runs)])
-    for (kind, nfr, prior, seq, uni), (mt, mc, obs), m in zip(jobs, runs, mres):
+    runs, done = [], []
+    for kind, nfr, prior, seq, uni, how in jobs:
+        r = run_one(chk, kind, nfr, prior, seq, uni, how)
+        if r is None:
+            if chk.n_found() >= 3:
+                break
+            continue
+        done.append((kind, nfr, prior, seq, uni, how))
+        runs.append(r)
+    jobs = done
+    mres = common.run_model_sharded([(41, [nfr, mt, mc]) for (kind, nfr, prior, seq, uni, how), (mt, mc, obs) in zip(jobs, runs)])
+    for (kind, nfr, prior, seq, uni, how), (mt, mc, obs), m in zip(jobs, runs, mres):
         flat = [n for c in seq for n in ([c[1].split("@")[0]] if c[0] == "add" else c[1] if c[0] == "assign" else ["bad"])]
-        chk.note_case((kind, nfr, prior, repr(seq)), any(n != "good" for n in flat))
+        chk.note_case((kind, nfr, prior, repr(seq), how), any(n != "good" for n in flat))
         chk.count("%s %s" % (kind, "+".join(c[0] for c in seq)))
-        judge(chk, kind, nfr, prior, seq, mt, mc, obs, m[1])
+        chk.count("frame count given by the constructor" if how == "ctor" else "frame count assigned to the empty block afterwards")
+        judge(chk, kind, nfr, prior, seq, mt, mc, obs, m[1], how)
         if chk.n_found() >= 3:
             break
     check_decoded(chk)
